@@ -1,7 +1,7 @@
-(* Tie (c): ODVariable.decode_bits / encode_bits and BaseNode402.state as translated from the CURRENT
-   source text (Gen/Src.v) equal the model functions of Model/Views.v (C20) and Model/P402.v (C19). *)
+(* Tie (c): ODVariable.decode_bits / encode_bits as translated from the CURRENT source text (Gen/SrcC20.v)
+   equal the model functions of Model/Views.v (C20). *)
 From Coq Require Import ZArith List Bool Lia String.
-From CV Require Import Base.Val Base.Tys Base.PyLib Gen.Src Gen.P402Tables Model.Views Model.P402.
+From CV Require Import Base.Val Base.Tys Base.PyLib Gen.SrcC20 Model.Views.
 Import ListNotations.
 Open Scope Z_scope.
 
@@ -25,13 +25,3 @@ Proof.
   intros Hne Hpos. unfold encode_bits_list, src_encode_bits. rewrite (mask_of_fold bits Hpos). cbn [rbind].
   destruct bits as [|x r]; [congruence|]. reflexivity.
 Qed.
-
-Lemma src_state_decode_in tbl sw : src_p402_state tbl sw = decode_in tbl sw.
-Proof.
-  unfold src_p402_state. cbv zeta.
-  induction tbl as [|[name [m v]] r IH]; cbn [find decode_in]; [reflexivity|].
-  destruct (Z.land sw m =? v); [reflexivity|exact IH].
-Qed.
-
-Theorem src_p402_state_eq sw : src_p402_state SW_MASK sw = decode_state sw.
-Proof. apply src_state_decode_in. Qed.
